@@ -358,9 +358,10 @@ def roundtrip_signature(case, fails):
             f0 = [f for f in fails if f["kind"] == k][0]
             extra = ""
             if k == "exception":
-                extra = " " + str(f0["detail"]).split(":")[0] + ":" + str(f0["detail"]).split(":")[1] \
-                    if str(f0["detail"]).count(":") >= 2 and f0["path"] in ("/", "<write>", "<open>") \
-                    else " " + ":".join(str(f0["detail"]).split(":")[:2])
+                # detail is "<op>: err:Class..." for walk/listdir, "err:Class: message" otherwise
+                text = str(f0["detail"])
+                words = [w for w in text.replace(": ", " ").split(" ") if w.startswith(("err:", "crash:"))]
+                extra = " " + (words[0].rstrip(":") if words else "unknown")
                 extra += " at " + ("write" if f0["path"] == "<write>" else "open" if f0["path"] == "<open>" else "read")
             return "roundtrip %s: %s%s" % (fam, k, extra)
     mt = [f for f in fails if f["kind"] == "mtime"]
